@@ -239,9 +239,9 @@ TEXTS = {
                 "paths (send, Sender, WeakSender, timers, children, broker topics) carry unit responses, restart "
                 "needs RestartableActor, with_stream only exists on the non-restartable builder state and needs a "
                 "StreamHandler, recreate_from_default needs Default - and type-erased / weak handles can only be "
-                "produced through entry points carrying those bounds. The bounds of the 25 entry points are "
+                "produced through entry points carrying those bounds. The bounds of the 31 entry points are "
                 "re-extracted from generics, where-clauses and impl headers on every run and the instance lemma "
-                "re-proved by `decide`. Correspondence: a catalogue of 62 minimal client programs (each ill-typed one "
+                "re-proved by `decide`. Correspondence: a catalogue of 74 minimal client programs (each ill-typed one "
                 "paired with a well-typed twin) is compiled against /repo; rustc's verdict must equal the model's "
                 "`accepts` on every program, every ill-typed program must be rejected.",
         "design_ref": "DESIGN.md §5 C19",
